@@ -183,6 +183,10 @@ def _deliver(st, k, ev, site):
     if action == 'raise':
         _write(st, 'reached.%d' % len(st.landed), rec)
         raise RuntimeError('pwv injected failure at event %d' % k)
+    if action == 'interrupt':
+        # what the default SIGINT handler does to the main thread of a child (Ctrl-C reaches the whole process group)
+        _write(st, 'reached.%d' % len(st.landed), rec)
+        raise KeyboardInterrupt()
     # rendezvous
     want = st.nposted + 1
     _write(st, 'reached.%d' % len(st.landed), rec)
